@@ -35,9 +35,33 @@ def prepare(crate, repo, tag=''):
     if os.path.exists(lock) and not os.path.exists(os.path.join(dst, 'Cargo.lock')):
         shutil.copy(lock, os.path.join(dst, 'Cargo.lock'))
     gen = os.path.join(dst, 'gen_list.py')
-    if os.path.exists(gen):
+    if os.path.exists(gen) and not os.path.exists(os.path.join(dst, 'src', 'harness_list.rs')):
         subprocess.run([sys.executable, gen, os.path.join(dst, 'src', 'harness_list.rs')], check=True, cwd=dst)
     return dst
+
+def restrict(crate_dir, names):
+    """Emit only the selected harnesses into the crate (the complete index is regenerated alongside)."""
+    gen = os.path.join(crate_dir, 'gen_list.py')
+    if not os.path.exists(gen): return
+    only = os.path.join(crate_dir, 'only.txt')
+    open(only, 'w').write('\n'.join(sorted(set(names))) + '\n')
+    tmp = os.path.join(crate_dir, 'src', 'harness_list.rs.new')
+    subprocess.run([sys.executable, gen, tmp, only], check=True, cwd=crate_dir)
+    cur = os.path.join(crate_dir, 'src', 'harness_list.rs')
+    if not os.path.exists(cur) or open(cur).read() != open(tmp).read():
+        os.replace(tmp, cur)
+    else:
+        os.remove(tmp)
+
+def full_index(crate_dir):
+    """name -> metadata for every harness the generator knows (independent of the current restriction)."""
+    gen = os.path.join(crate_dir, 'gen_list.py')
+    p = os.path.join(crate_dir, 'src', 'harness_index.json')
+    if not os.path.exists(p) and os.path.exists(gen):
+        tmp = os.path.join(crate_dir, 'src', 'harness_list.rs.idx')
+        subprocess.run([sys.executable, gen, tmp], check=True, cwd=crate_dir)
+        os.remove(tmp)
+    return json.load(open(p)) if os.path.exists(p) else {}
 
 def parse_terse(out):
     """-> dict harness -> dict(status, failed_checks=[(desc, where)], checks, failed, unreachable, time_s, covers={})"""
@@ -98,7 +122,7 @@ def parse_terse(out):
     return res
 
 def run_kani(crate_dir, harnesses, features=(), jobs=16, timeout=1800, playback=False, extra=(), module='proofs'):
-    target = os.path.join(WORK, 'kani-target', os.path.basename(crate_dir) + ('-' + '-'.join(features) if features else ''))
+    target = target_for(crate_dir, features)
     cmd = ['cargo', 'kani', '--output-format', 'terse', '--target-dir', target]
     if jobs and jobs > 1 and len(harnesses) > 1: cmd += ['-j', str(jobs)]
     if features: cmd += ['--features', ','.join(features)]
@@ -150,6 +174,16 @@ def native_replay(crate_dir, harness, vals, features=()):
 # --------------------------------------------------------------------------------------------------
 # suites
 
+def shared_target():
+    """One target directory for every Kani build (all crates, all feature sets): the host-side dependencies (syn,
+    regex-automata, ...) are compiled once; cargo keeps the artifacts of different feature sets apart by fingerprint."""
+    return os.path.join(WORK, 'kani-target', 'all')
+
+def target_for(crate_dir, features):
+    """One target directory per (crate, feature set): within it the newest goto binary of a harness is the current one,
+    which spec_unwindset relies on (mangled loop ids contain a per-feature-set crate hash)."""
+    return os.path.join(WORK, 'kani-target', os.path.basename(crate_dir) + ('-' + '-'.join(features) if features else ''))
+
 def _allowed(harness, desc, allow):
     for pat, descs in (allow or {}).items():
         if re.match(pat + r'$', harness) and desc in descs: return True
@@ -166,7 +200,9 @@ def run_suite(suite, tier, repo, ev, findings, prop, seed=0):
         crate_dir = os.path.join(repo, suite['crate_dir'])       # harnesses compiled into a crate of the repository itself
     else:
         crate_dir = prepare(suite['crate'], repo)
+    if not suite.get('crate_dir'): full_index(crate_dir)
     names = suite['harnesses'](tier, crate_dir)
+    if names and not suite.get('crate_dir'): restrict(crate_dir, names)
     if not names:
         undecided.append('%s: no harness selected (no measured cost within the tier budget) - vacuity guard' % suite.get('label', suite['crate']))
         return undecided
@@ -384,7 +420,7 @@ def _one(args):
 
 def run_pool(crate_dir, harnesses, features=(), jobs=16, timeout=900, playback=False, extra=(), module='proofs'):
     from concurrent.futures import ThreadPoolExecutor
-    target = os.path.join(WORK, 'kani-target', os.path.basename(crate_dir) + ('-' + '-'.join(features) if features else ''))
+    target = target_for(crate_dir, features)
     t0 = time.time()
     # build once (codegen only) so that the parallel invocations find everything compiled
     cmd = ['cargo', 'kani', '--target-dir', target, '--only-codegen']
